@@ -410,6 +410,13 @@ def run(out, tier, scratch):
 
     # corpus first
     for rp in core.corpus(ID):
+        if rp.get("predicate") == "dask":
+            cfg, partitions, subs, sched, again = rp["args"]
+            tree, r = run_dask(cfg, partitions, subs, sched, 0, recompute=again)
+            out.count("corpus:dask")
+            if tree is not None:
+                judge(cfg, tree, r, "corpus " + rp["_file"], rp["args"])
+            continue
         cfg, tree = rp["args"]
         r = add_run(cfg, tree, "corpus")
         judge(cfg, tree, r, "corpus " + rp["_file"])
